@@ -26,6 +26,9 @@ PRELUDE = open(os.path.join(core.VERIF, "janet", "canon.janet")).read() + r'''
 (def ARR @[10 20 30])
 (def TUP [1 2 3])
 (def TAB @{:a 1 0 :zero 1 :one})
+(def FTAB @{:a false 0 false 1 0 :zz false})
+(def FST {:a false 0 false 1 0})
+(def FARR @[false 0 nil false])
 (def STR "hello")
 (def BUF @"buf")
 (defn route [id name f]
@@ -50,7 +53,7 @@ def operands(rng, f, n):
     for i in range(n):
         c = rng.random()
         if f in ("get", "in", "put", "next", "length") and i == 0:
-            out.append(rng.choice([("ARR", 0), ("TUP", 0), ("TAB", 0), ("STR", 0), ("BUF", 0), ("OBJ", 0), ("nil", 1), ("5", 1)]))
+            out.append(rng.choice([("ARR", 0), ("TUP", 0), ("TAB", 0), ("STR", 0), ("BUF", 0), ("OBJ", 0), ("nil", 1), ("5", 1), ("FTAB", 0), ("FST", 0), ("FARR", 0), ("FTAB", 0)]))
         elif f in ("get", "in", "put", "next") and i == 1:
             out.append(rng.choice([("0", 1), ("1", 1), ("2", 1), ("3", 1), ("-1", 1), (":a", 1), (":zz", 1), ("nil", 1), ("1.5", 1), ("127", 1), ("128", 1)]))
         elif c < 0.72:
